@@ -457,12 +457,14 @@ CombineText(p, v) ==
 \*   transform  a patch whose transform returns an error (convert "abc" to int64)
 \*   topath     a patch whose toFieldPath runs through a scalar
 \*   namegen    nothing, but the API read that checks its generated name for availability fails
+\*   namegen-nomatch  ... fails with "no matches for kind" (the kind is not served yet): a failure like any other, not
+\*              "the name is free" (added after the seeded change C10-m5 was missed)
 \*   optional   an Optional patch whose source is missing (control: nothing fails)
 \*   label      nothing, but the XR lacks the name-prefix label crossplane.io/composite (every template fails to render metadata)
 \* phase create: the judged Compose is the first one; phase update: a healthy Compose ran before, then spec.size changed
 Templates(n) == {"t" \o ToString(k) : k \in 1..n}
 FailingTemplates(r) ==
   IF r.kind = "label" THEN Templates(r.n)
-  ELSE IF r.kind \in {"required", "transform", "topath", "namegen"} /\ r.fail > 0 THEN {"t" \o ToString(r.fail)}
+  ELSE IF r.kind \in {"required", "transform", "topath", "namegen", "namegen-nomatch"} /\ r.fail > 0 THEN {"t" \o ToString(r.fail)}
   ELSE {}
 =============================================================================
